@@ -274,6 +274,9 @@ func visitInstr(fr *frame, instr ssa.Instruction) continuation {
 		fr.i.chanSend(fr.get(instr.Chan).(*vchan), fr.get(instr.X))
 
 	case *ssa.Store:
+		if fr.i.sched != nil && fr.i.sched.racy && !isLocalAlloc(instr.Addr) {
+			fr.i.yield("mem")
+		}
 		store(mustDeref(instr.Addr.Type()), fr.get(instr.Addr).(*value), fr.get(instr.Val))
 
 	case *ssa.If:
@@ -761,4 +764,10 @@ func tolerantVisit(fr *frame, instr ssa.Instruction) (k continuation) {
 		}
 	}()
 	return visitInstr(fr, instr)
+}
+
+// isLocalAlloc: the address is a stack slot of the current function (never shared).
+func isLocalAlloc(v ssa.Value) bool {
+	a, ok := v.(*ssa.Alloc)
+	return ok && !a.Heap
 }
